@@ -1,7 +1,7 @@
 #!/bin/sh
 # run every claimed check serially; summary in .work/run_all.log
 cd /verif
-: > .work/run_all.log
+LOG=.work/run_all_${1:-quick}.log; : > $LOG
 for pid in $(python3 - <<'PY'
 import json,glob
 print(" ".join(sorted(json.load(open(f))["property_id"] for f in glob.glob("registry/C*.json") if json.load(open(f)).get("claimed"))))
@@ -11,7 +11,7 @@ PY
   out=$(./check "$pid" --tier "${1:-quick}" 2>&1 | grep -E "^\[check|^VIOLATION|^KNOWN-FINDING" )
   rc=$?
   e=$(date +%s)
-  echo "$pid $((e-s))s :: $out" | tr '\n' ' ' >> .work/run_all.log
-  echo >> .work/run_all.log
+  echo "$pid $((e-s))s :: $out" | tr '\n' ' ' >> $LOG
+  echo >> $LOG
 done
-echo DONE >> .work/run_all.log
+echo DONE >> $LOG
